@@ -2,6 +2,7 @@ package world
 
 import (
 	"bytes"
+	"context"
 	"errors"
 	"fmt"
 	"io"
@@ -56,11 +57,15 @@ type Net struct {
 	Log   []*Exchange
 	Store *Store
 	// Fault is asked before a request is served; it may return "drop-req" (request lost),
-	// "drop-resp" (server effect happens, client sees an error) or "" / anything handled by Corrupt.
+	// "drop-resp" (server effect happens, client sees an error), "write-fail:<n>" (the connection breaks while the
+	// server writes its answer: after n body bytes every write fails; the client sees an error) or "".
 	Fault func(ex *Exchange) string
 	// Corrupt may rewrite a response before the client sees it (hostile or faulty peer).
 	Corrupt func(ex *Exchange) (status int, body string, replaced bool)
 	KeepLog bool
+	// OnWrite is invoked before the server writes body bytes of a response (a slow or blocked client: scheduler yield
+	// point); may be nil.
+	OnWrite func(ctx context.Context, ex *Exchange)
 }
 
 func NewNet(store *Store) *Net {
@@ -74,6 +79,9 @@ type recorder struct {
 	status  int
 	wrote   bool
 	onError func() int
+	// failAfter >= 0: the connection breaks after that many body bytes; the write reports a short count and an error
+	failAfter int
+	onWrite   func()
 }
 
 func (r *recorder) Header() http.Header { return r.hdr }
@@ -92,6 +100,19 @@ func (r *recorder) WriteHeader(code int) {
 func (r *recorder) Write(b []byte) (int, error) {
 	if !r.wrote {
 		r.WriteHeader(200)
+	}
+	if r.onWrite != nil {
+		r.onWrite()
+	}
+	if r.failAfter >= 0 {
+		room := r.failAfter - r.body.Len()
+		if room < 0 {
+			room = 0
+		}
+		if len(b) > room {
+			r.body.Write(b[:room])
+			return room, errors.New("simnet: write: connection reset by peer")
+		}
 	}
 	return r.body.Write(b)
 }
@@ -138,9 +159,16 @@ func (n *Net) Serve(from string, req *http.Request) (*Exchange, error) {
 	sreq.RequestURI = req.URL.RequestURI()
 	sreq.RemoteAddr = "10.0.0.1:40000"
 	sreq.ContentLength = int64(len(ex.ReqBody))
-	rec := &recorder{ex: ex, hdr: http.Header{}}
+	rec := &recorder{ex: ex, hdr: http.Header{}, failAfter: -1}
+	if strings.HasPrefix(fault, "write-fail:") {
+		fmt.Sscanf(fault, "write-fail:%d", &rec.failAfter)
+	}
 	if n.Store != nil {
 		rec.onError = func() int { return n.Store.CallsIn(ex.ID) }
+	}
+	if n.OnWrite != nil {
+		hook, ctx := n.OnWrite, sreq.Context()
+		rec.onWrite = func() { hook(ctx, ex) }
 	}
 	func() {
 		defer func() {
@@ -163,7 +191,7 @@ func (n *Net) Serve(from string, req *http.Request) (*Exchange, error) {
 	if ex.Panic != "" {
 		return ex, errors.New("simnet: connection closed (server panic)")
 	}
-	if fault == "drop-resp" {
+	if fault == "drop-resp" || strings.HasPrefix(fault, "write-fail:") {
 		return ex, errors.New("simnet: connection reset by peer")
 	}
 	return ex, nil
